@@ -264,6 +264,11 @@ def rich_compare(interp, name, a, b, text='', pure=False):
         return rich_compare(interp, name, a.attrs['<sym>'], b.attrs['<sym>'], text, pure)
     if is_dt_record(a) and is_dt_record(b):
         return dt_record_compare(interp, name, a, b, text)
+    # namedtuple records compare like the tuples they are
+    if isinstance(a, Obj) and isinstance(b, Obj) and getattr(a, 'nt_fields', None) and getattr(b, 'nt_fields', None) and \
+            not interp.get_method(a, CMP_DUNDER[name]):
+        return rich_compare(interp, name, ListV([a.attrs[f_] for f_ in a.nt_fields], 'tuple'), ListV([b.attrs[f_] for f_ in b.nt_fields], 'tuple'),
+                            text, pure)
     # tuples / lists of known items: lexicographic, item by item (each comparison may be a decision)
     if isinstance(a, ListV) and isinstance(b, ListV) and a.kind == b.kind and a.kind in ('tuple', 'list') and name in ('lt', 'le', 'gt', 'ge') \
             and not a.has_splice() and not b.has_splice() and a.items and len(a.items) == len(b.items) \
@@ -823,6 +828,11 @@ def value_attr(interp, base, attr):
         return Top('exception attribute', ignorance=False)
     if isinstance(base, Exc):
         return Top('exception attribute', ignorance=False)
+    if tag == 'timedelta' and attr in ('days', 'seconds', 'microseconds') and isinstance(base, Aff) and base.kind == 'td' and not base.coeffs:
+        import datetime as _dtm     # a constant duration: its normalised fields are constants
+        whole = base.const.numerator // base.const.denominator
+        td = _dtm.timedelta(seconds=whole, microseconds=int((base.const - whole) * 10 ** 6))
+        return Const(getattr(td, attr))
     if tag == 'timedelta' and attr in ('days', 'seconds'):
         return Atom(attr, [base], 'int')
     if tag in ('datetime', 'date') and attr in ('tzinfo', 'fold'):
@@ -1103,6 +1113,9 @@ def call_builtin(interp, name, args, kwargs):
             items = list(args)
         if len(items) == 1 and not isinstance(items[0], Splice):
             return items[0]
+        if items and 'key' not in kwargs and all(isinstance(i, Const) and isinstance(i.value, (int, float)) and not isinstance(i.value, bool)
+                                                 and i.value == i.value for i in items):
+            return Const((min if name == 'min' else max)(i.value for i in items))      # constant folding
         return Atom(name, [i if not isinstance(i, Splice) else Sym('list', i.name) for i in items], None)
     if name == 'sorted':
         items = _drain(interp, args[0])
@@ -1116,9 +1129,12 @@ def call_builtin(interp, name, args, kwargs):
         items = _drain(interp, args[0])
         return GenV(list(reversed(items)))
     if name == 'range':
+        for a in args:
+            if (isinstance(a, Const) and not isinstance(a.value, int)) or (not isinstance(a, Const) and a.tag in ('float', 'str', 'none', 'list', 'tuple')):
+                raise Raised(Exc('TypeError', "'%s' object cannot be interpreted as an integer" % (a.tag or type(getattr(a, 'value', None)).__name__)))
         if all(isinstance(a, Const) and isinstance(a.value, int) for a in args):
             r = range(*[a.value for a in args])
-            if len(r) <= 200:
+            if len(r) <= 1000:
                 return ListV([Const(i) for i in r])
         return Sym('list', 'range(%s)' % ', '.join(repr(a) for a in args))
     if name == 'zip' and len(set(id(a) for a in args if isinstance(a, GenV))) < len([a for a in args if isinstance(a, GenV)]):
@@ -1380,6 +1396,20 @@ def call_builtin(interp, name, args, kwargs):
             interp.extern[nm_] = getter
             return Builtin(nm_)
         raise Unmodelled(name)
+    if name in ('unicodedata.normalize', 'locale.strxfrm', 'str.casefold', 'str.lower', 'str.upper') and args:
+        # a pure text transformation: an uninterpreted function of its arguments (folded on constants)
+        if all(isinstance(a, Const) and isinstance(a.value, str) for a in args):
+            import unicodedata as _ud
+            if name == 'unicodedata.normalize':
+                try:
+                    return Const(_ud.normalize(args[0].value, args[1].value))
+                except ValueError as e_:
+                    raise Raised(Exc('ValueError', str(e_)))
+            if name.startswith('str.'):
+                return Const(getattr(str, short)(args[0].value))
+        if args[-1].tag not in ('str', None):
+            raise Raised(Exc('TypeError', 'argument must be str, not %s' % args[-1].tag))
+        return Atom(name, list(args), 'str')
     if name == 'math.isclose' and len(args) == 2:
         for a in args:
             if a.tag is not None and (a.tag not in NUMERIC or a.tag == 'complex'):
@@ -1712,6 +1742,19 @@ def call_method(interp, base, attr, args, kwargs, text=''):
         return Const(None)
     if isinstance(base, MatchV):
         if attr == 'groups':
+            dflt = args[0] if args else kwargs.get('default')
+            if dflt is not None:
+                # groups(default): a group that did not take part is reported as the default
+                items = []
+                for g_ in base.groups[1:]:
+                    if isinstance(g_, Const) and g_.value is None:
+                        items.append(dflt)
+                    elif getattr(g_, 'optional', False):
+                        interp.imprecise('groups(default) with an optional group of a symbolic match')
+                        items.append(g_)
+                    else:
+                        items.append(g_)
+                return ListV(items, 'tuple')
             return ListV(base.groups[1:], 'tuple')
         if attr == 'group':
             if not args:
